@@ -76,6 +76,16 @@ func lens(profile, i, keyLen int) (int, int) {
 			return 0, 1
 		}
 		return keyLen, 0
+	case 3: // keyed messages, value / tombstone alternating
+		if i%2 == 0 {
+			return keyLen, 1
+		}
+		return keyLen, 0
+	case 4: // keyed messages, tombstone / value alternating
+		if i%2 == 0 {
+			return keyLen, 0
+		}
+		return keyLen, 1
 	default:
 		return 0, 0
 	}
@@ -211,7 +221,7 @@ func ChooseShape() Shape {
 	ls := Layouts(vrt.Bound("segs", 2), vrt.Bound("recs", 2))
 	counts := ls[vrt.Choose("layout", len(ls))]
 	ver := vrt.Choose("ver", vrt.Bound("vers", 3))
-	prof := vrt.Choose("prof", vrt.Bound("profs", 2))
+	prof := vrt.Bound("prof_base", 0) + vrt.Choose("prof", vrt.Bound("profs", 2))
 	v1 := make([]bool, len(counts))
 	for i := range v1 {
 		switch ver {
